@@ -179,10 +179,12 @@ func runC05(c *eng.Ctx) {
 		eng.InspectNoLit(f.Decl.Body, func(n ast.Node) bool {
 			if r, isR := n.(*ast.ReturnStmt); isR && len(r.Results) == 1 {
 				pos = r.Pos()
-				if c := builtinCall(info, r.Results[0], "len"); c != nil && eng.IsField(info, c.Args[0], items) {
-					ok = true
-				} else {
-					ok = false
+				srcs := valueSources(info, f.Decl.Body, r.Results[0], 3)
+				ok = len(srcs) > 0
+				for _, src := range srcs {
+					if c := builtinCall(info, src, "len"); c == nil || !eng.IsField(info, c.Args[0], items) {
+						ok = false
+					}
 				}
 			}
 			return true
@@ -226,18 +228,19 @@ func runC05(c *eng.Ctx) {
 		info := f.Pkg.TypesInfo
 		ok := false
 		var pos token.Pos = f.Decl.Pos()
-		if inner != nil {
-			eng.InspectNoLit(f.Decl.Body, func(n ast.Node) bool {
-				if r, isR := n.(*ast.ReturnStmt); isR && len(r.Results) == 1 {
-					pos = r.Pos()
-					ok = isCallTo(info, r.Results[0], inner.Obj)
+		eng.InspectNoLit(f.Decl.Body, func(n ast.Node) bool {
+			if r, isR := n.(*ast.ReturnStmt); isR && len(r.Results) == 1 {
+				pos = r.Pos()
+				srcs := valueSources(info, f.Decl.Body, r.Results[0], 3)
+				ok = len(srcs) > 0
+				for _, src := range srcs {
+					if !(inner != nil && isCallTo(info, src, inner.Obj)) && !isLenZero(info, src) {
+						ok = false
+					}
 				}
-				return true
-			})
-		}
-		if !ok {
-			ok, pos = returnsLenZero(f)
-		}
+			}
+			return true
+		})
 		r4.Check(ok, f.Key, pos, "returns q.isEmpty() / len(q.items) == 0", "IsEmpty() does not return isEmpty()")
 	}
 
@@ -955,17 +958,27 @@ func returnsElem(p *eng.Prog, f *eng.Func, items *types.Var, ixOK func(ast.Expr)
 			}
 			return true
 		}
-		v, isV := eng.SelObj(info, res).(*types.Var)
-		if !isV {
+		if _, isV := eng.SelObj(info, res).(*types.Var); !isV {
 			ok = false
 			return true
 		}
-		as := eng.AssignedExprs(info, f.Decl.Body, v)
-		if len(as) != 1 || !isElem(as[0]) {
-			ok = false
-			return true
+		// a local (possibly filled inside a lock-wrapper literal, possibly through another local): every value it
+		// can hold is the element or nil
+		nElem := 0
+		for _, src := range valueSources(info, f.Decl.Body, res, 4) {
+			if eng.IsNil(info, src) {
+				continue
+			}
+			if !isElem(src) {
+				ok = false
+				continue
+			}
+			nElem++
+			if before != nil && src.Pos() > before.Pos() {
+				ok = false
+			}
 		}
-		if before != nil && as[0].Pos() > before.Pos() {
+		if nElem == 0 {
 			ok = false
 		}
 		return true
